@@ -35,7 +35,8 @@ def gen_cases(tier, seed):
             cfgd["rho"] = float(10.0 ** rng.uniform(-4, 0))
         case = work.mk_case(fam, [seed, k], cfgd)
         case["y0"] = "rand" if rng.random() < 0.4 else "none"
-        case["default_params"] = bool(rng.random() < 0.2)
+        # the shared default Params() has no iteration limit: only use it on families that converge
+        case["default_params"] = bool(rng.random() < 0.25) and fam in ("QP", "NLP", "DEG")
         case["hist_len"] = int(rng.integers(3, 9))
         cases.append(case)
     return cases
